@@ -206,10 +206,16 @@ class SymSeq:
 
 
 class DiscardYields:
-    """Generator output that is only observed through per-yield checks (objects are not stored)."""
+    """Generator output that is only observed through per-yield checks (objects are not stored); when a counting
+    abstraction key X is set (spec_env['X']) the number of yielded task tuples equal to X is tracked (ycount())."""
 
     def __init__(self):
         self.count = 0
+        self.keycount = z3.IntVal(0)
+
+    def vc_havoc_inplace(self, eng, name):
+        self.keycount = z3.Int('ycount!%d' % next(_fresh_counter))
+        eng.assume(self.keycount >= 0)
 
 
 class ModRef:
@@ -1747,6 +1753,12 @@ class Engine:
             self.on_yield(self, val, fr)
         if isinstance(fr.yields, DiscardYields):
             fr.yields.count += 1
+            if 'X' in self.spec_env:
+                from .bags import count_key
+                try:
+                    fr.yields.keycount = fr.yields.keycount + count_key(self, val, self.spec_env['X'])
+                except Unsupported:
+                    pass
         elif isinstance(fr.yields, SymSeq):
             fr.yields = fr.yields.append(val)
         else:
@@ -2440,7 +2452,7 @@ class Engine:
 
         if fr.yields is not None and self.contains_yield(node.body):
             if isinstance(fr.yields, DiscardYields):
-                pass
+                fr.yields.vc_havoc_inplace(self, 'Y')
             elif not isinstance(fr.yields, SymSeq):
                 raise Unsupported('generator with inductive loop must use a SymSeq output (declare yields=...)')
             else:
@@ -2716,6 +2728,15 @@ def _sf_nsplit(eng, node, fr):
     return Sym(NSPLIT(zs(eng.eval(node.args[0], fr)), zs(eng.eval(node.args[1], fr))), INT)
 
 
+def _sf_ycount(eng, node, fr):
+    f = fr
+    while f is not None:
+        if isinstance(getattr(f, 'yields', None), DiscardYields):
+            return concretize(Sym(f.yields.keycount, INT))
+        f = f.closure
+    raise Unsupported('ycount() outside a counting generator')
+
+
 def _sf_seqlen(eng, node, fr):
     v = eng.eval(node.args[0], fr)
     if isinstance(v, GenResult):
@@ -2739,4 +2760,4 @@ def _sf_cdiv(eng, node, fr):
 
 
 SPEC_FORMS = {'forall': _sf_forall, 'exists': _sf_exists, 'implies': _sf_implies, 'iff': _sf_iff,
-              'ite': _sf_ite, 'old': _sf_old, 'entry': _sf_entry, 'head': _sf_head, 'dget': _sf_dget, 'bagcount': _sf_bagcount, 'nsplit': _sf_nsplit, 'seqlen': _sf_seqlen, 'fdiv': _sf_fdiv, 'cdiv': _sf_cdiv}
+              'ite': _sf_ite, 'old': _sf_old, 'entry': _sf_entry, 'head': _sf_head, 'dget': _sf_dget, 'bagcount': _sf_bagcount, 'ycount': _sf_ycount, 'nsplit': _sf_nsplit, 'seqlen': _sf_seqlen, 'fdiv': _sf_fdiv, 'cdiv': _sf_cdiv}
